@@ -6,11 +6,13 @@ import CdsVerif.Driver.Snapshot
 import CdsVerif.Driver.FCBatch
 import CdsVerif.Algo.Spin.Model
 import CdsVerif.Algo.Treiber.Model
+import CdsVerif.Algo.Elim.Model
 import CdsVerif.Algo.MSQueue.Model
 import CdsVerif.Algo.Moir.Model
 import CdsVerif.Algo.RWQueue.Model
 import CdsVerif.Algo.Optimistic.Model
 import CdsVerif.Algo.Ring.Model
+import CdsVerif.Algo.VoidRing.Model
 import CdsVerif.Algo.Vyukov.Model
 import CdsVerif.Algo.FreeList.Model
 import CdsVerif.Algo.TaggedFreeList.Model
@@ -122,6 +124,12 @@ def main (args : List String) : IO UInt32 := do
     replayLoop stdin CdsVerif.Algo.Treiber.model (fun _ => CdsVerif.Algo.Treiber.init)
       (fun loc => loc == "top" || (loc.startsWith "n" && !(loc.any (· == '+')))) (fun _ => true) none
     return 0
+  | ["replay", "elim"] =>
+    -- TreiberStack with elimination back-off: hidden harness variants `treiber_hp_elim_named` / `treiber_dhp_elim_named` of the
+    -- `stack` client after tools/elim_pre.py (slot / wait inputs of every back-off round folded into the CALL line); machine Algo/Elim
+    replayLoop stdin CdsVerif.Algo.Elim.model (fun _ => CdsVerif.Algo.Elim.init)
+      CdsVerif.Algo.Elim.relevant (fun _ => true) none
+    return 0
   | ["replay", "spin"] =>
     replayLoop stdin CdsVerif.Algo.Spin.model (fun _ => CdsVerif.Algo.Spin.init)
       (fun loc => loc.startsWith "L") (fun _ => true) none
@@ -231,6 +239,11 @@ def main (args : List String) : IO UInt32 := do
   | ["replay", "ring"] =>
     -- initial state from the header words `cap=<capacity()>` and (optional) `rot=<warm-up rotations>`
     replayLoop stdin CdsVerif.Algo.Ring.model (fun cfg => CdsVerif.Algo.Ring.initCfg cfg)
+      (fun loc => loc == "front" || loc == "back") (fun _ => true) none
+    return 0
+  | ["replay", "voidring"] =>
+    -- WeakRingBuffer<void> (variants void_* of the `ringbuf` client after tools/voidring_pre.py); header words cap= rot=
+    replayLoop stdin CdsVerif.Algo.VoidRing.model (fun cfg => CdsVerif.Algo.VoidRing.initCfg cfg)
       (fun loc => loc == "front" || loc == "back") (fun _ => true) none
     return 0
   | ["replay", "mspq"] =>
